@@ -119,6 +119,9 @@ pub enum ChildSpec {
     Sock,
     /// TransientSource<Timer>
     Timer(Deadline),
+    /// (replacements only) a new Generic over the *same* fd as the child it replaces; a fresh
+    /// pipe when there is none
+    SameFd,
 }
 
 #[derive(Serialize, Deserialize, Clone, Debug, PartialEq)]
@@ -164,6 +167,9 @@ pub enum Op {
         /// a source has to forget its tokens; calloop's own sources do)
         #[serde(default)]
         forgetful: bool,
+        /// virtual nanoseconds the source's before_sleep hook takes (it flushes, takes a lock...)
+        #[serde(default)]
+        slow: u64,
     },
     /// a parent holding TransientSource<child>; child over a pipe read end or a timer
     InsertTransient { id: Id, child: ChildSpec, from_default: bool, script: Script },
